@@ -161,6 +161,7 @@ def _nontrivial(case, d):
 def run_case(case):
     out = Outcome()
     out.label("clock=" + case["prog"]["clock"])
+    earlier_sim, probe = common.initial_method_probe()
     if case.get("default_info"):
         out.label("default-stream-of-StreamInformation")
     plain = common.run_program(case, ["plain"])
@@ -231,6 +232,9 @@ def run_case(case):
         if fast != slow:
             out.fail("digest-differs-slow-starting-listener", _first_diff(fast, slow))
     del keep
+    if probe.calls:
+        out.fail("initial-method-of-another-simulator-executed", {"calls": probe.calls})
+    del earlier_sim
     if case.get("xproc"):
         v = cross_process([case], [("0", 0, ["plain"]), ("1", 300, ["pause", case["k"]]),
                                    ("random", 1000, ["bounded", case["frac"]])])
